@@ -466,6 +466,9 @@ def unfuse_legs(a, axes) -> 'Tensor':
     if axes_hf:
         meta, struct, slices, nlegs, hfs = _meta_unfuse_hard(a.config, a.struct, a.slices, tuple(axes_hf), tuple(a.hfs))
         data = _unmerge(a.config, a._data, meta)
+        # nlegs follows the order of native legs; match it to the order of logical legs in axes_hf
+        nlegs = dict(zip(sorted(axes_hf), nlegs))
+        nlegs = [nlegs[hi] for hi in axes_hf]
 
         for unfused, n in zip(nlegs[::-1], axes_mf[::-1]):
             mfs = mfs[:n] + [(1,)] * unfused + mfs[n+1:]
